@@ -199,6 +199,8 @@ func setupHost(dir string) error {
 		{host, "config", "core.whitespace", "trailing-space,space-before-tab"},
 		{host, "config", "verifsec.Sub.Section.CamelKey", "Value With Spaces"},
 		{host, "config", "branch.feature.description", "work in progress"},
+		// a remote that only has a url (no fetch refspec), as `git config remote.mirror.url ...` leaves it
+		{host, "config", "remote.mirror.url", remote},
 		{dir, "clone", "-q", remote, filepath.Join(dir, "peer")},
 		{filepath.Join(dir, "peer"), "config", "user.name", "Peer Dev"},
 		{filepath.Join(dir, "peer"), "config", "user.email", "peer@example.org"},
